@@ -226,7 +226,8 @@ CLAIMED['C14'] = dict(
          'condition that still mentions the variable) and emptyTest_ok; FOR split_and on expressions (Props/C14c): splitAnd_total / splitAnd_total_parsed - '
          'a list of conjuncts or the ValueError class, nothing else (presplit_total by a mutual induction over the three transform functions with a '
          'node-by-node invariant); FOR canonical_form (Props/C14d): canonical_total - on an accepted property whose split positions bind no alias '
-         'every copy passes the sanity check and the result is a non-empty list; canonical_ok_iff - canonical_form succeeds exactly when nothing is '
+         'every copy passes the sanity check and the result is a non-empty list, canonical_total_noRef - the same whenever no event references an '
+         'alias bound in a split position (the known finding, negated); canonical_ok_iff - canonical_form succeeds exactly when nothing is '
          'split or every copy is WellScoped by itself (the known finding is the only way it fails); and for the two replacements (replace_roundtrip_parsed, Props/C13d).',
     design_ref='DESIGN.md §6 C14',
     note='PARTIAL: totality is a theorem for refactor_reference, split_and, canonical_form (no alias in a split position) and the this/var '
